@@ -99,12 +99,15 @@ Ltac occ_others :=
 (* the timeout sweeper drops the reference it holds at the head of its list *)
 Lemma unref_xt s g r xt' l :
   GInv s g -> g_xt g = r :: xt' -> g_owe g = [] -> g_ph g = [] -> g_pre g = [] ->
-  aget (store s) r = Some l -> l_timeouted l = true ->
+  aget (store s) r = Some l ->
   GInv (unref s r) (g <| g_xt := xt' |>).
 Proof.
-  intros G Hx Ho Hp Hq Hr Ht.
+  intros G Hx Ho Hp Hq Hr.
   destruct (rec_counts s g r l G Hr) as [[C1 [C2 [C3 C4]]] _].
   destruct (gi_rec _ _ G r l Hr) as [A1 A2 A3 A4 A5 A6 A7 A8 A9 A10 A11].
+  assert (Ht : l_refc l = 1 -> l_timeouted l = true).
+  { intros E. destruct (l_timeouted l) eqn:Et; auto. destruct (A6 eq_refl) as [_ [_ [_ Q]]].
+    unfold tcount in A3. rewrite Hx, Ho, Hp, Hq, occ_cons_eq in A3. simpl occ in A3. lia. }
   unfold tcount, ecount in *. rewrite Hx, Ho, Hp, Hq in *. rewrite occ_cons_eq in *. simpl occ in A3.
   eapply unref_ginv; eauto; gs; unfold tcount, ecount; gs; rewrite ?Ho, ?Hp, ?Hq; simpl occ; try lia.
   - rewrite Hx. occ_others.
